@@ -12,7 +12,8 @@ RULE = ("per case: a slot with 0-4 existing shares, each created under one of 3 
         "exist'), write vectors, new_length and a read vector, sent with a drawn enabler. Oracle: if any test fails or the enabler differs from ANY existing "
         "share of the slot -> every file byte-identical afterwards (and BadWriteEnablerError for the latter); otherwise every named share changed as the model "
         "says; read results always equal the pre-request data. Non-trivial = request that must be refused while naming >=2 shares or with mixed enablers in the "
-        "slot; distinct by case.")
+        "slot; distinct by case."
+        ' Write vectors also use offsets at or just above MutableShareFile.MAX_SIZE: such a request may fail, but then the share directory must be byte-identical.')
 LEVEL_TEXT = "Random multi-share requests; all-or-nothing is decided by comparing complete snapshots of the share directory before and after every refused request."
 ASSUMPTIONS = ["shares with foreign write enablers are placed in the bucket directory directly (the API cannot create them on a correct server)"]
 REQUIRED_CLASSES = ["write-beyond-max-size", "bad-enabler", "testv-failed", "mixed-enablers", "multi-share-refused", "applied-multi", "enabler-mismatch-on-unnamed-share"]
